@@ -1,9 +1,12 @@
 --------------------------- MODULE MCMetaWalkers ---------------------------
 EXTENDS MetaWalkers
 MCSpec == WInit /\ [][WNext]_wvars
-NoHist == <<it, first, own, buf, flushed, sstep, gen, mir, dup, cursor, cgen, insync, fstep, lastgot, missing, quirk>>
+NoHist == <<it, first, own, buf, flushed, sstep, gen, mir, dup, cursor, cgen, insync, fstep, lastgot, missing, oldbuf, midwin, quirk>>
 Witness1 == \E w \in Walkers : dup[w] = 0 /\ Cardinality(mir[w]) >= 4 /\ gen[Peer(w)] >= 1
 NoWitness1 == ~Witness1
 Witness2 == quirk = {} /\ \E w \in Walkers : gen[w] >= 1 /\ gen[Peer(w)] >= 1 /\ Cardinality(mir[w]) >= 3
 NoWitness2 == ~Witness2
+\* a reader ran inside the peer's snapshot window, re-read the new snapshot and was shown the whole old hills file
+Witness3 == \E i \in 1..Len(hist) : hist[i].t >= 0 /\ hist[i].view.stale /\ hist[i].view.n >= 2
+NoWitness3 == ~Witness3
 =============================================================================
